@@ -3,14 +3,15 @@ from reg._common import COMMON_ASSUME
 
 ENTRY = {
     'extractors': ['translate_py.py', 'translate_f90.py'],
-    'lean_files': ['Tables/SrcPyNewton.lean', 'Tables/SrcF90Pipeline.lean', 'Tables/SrcPyKernels.lean', 'Tables/SrcF90Kernels.lean', 'Tables/SrcPy.lean', 'Tables/SrcF90.lean', 'Tables/C07.lean', 'Tables/C04.lean', 'Tables/C08.lean', 'Tables/C12.lean', 'Props/C07.lean', 'Props/C07Variants.lean'],
+    'lean_files': ['Tables/SrcF90Triangle.lean', 'Tables/SrcPyNewton.lean', 'Tables/SrcF90Pipeline.lean', 'Tables/SrcPyKernels.lean', 'Tables/SrcF90Kernels.lean', 'Tables/SrcPy.lean', 'Tables/SrcF90.lean', 'Tables/C07.lean', 'Tables/C04.lean', 'Tables/C08.lean', 'Tables/C12.lean', 'Props/C07.lean', 'Props/C07Variants.lean'],
     'lemma_files': ['Lemmas/Variants.lean', 'Model/Geometric.lean', 'Model/GeometricInst.lean', 'Model/Newton.lean', 'Model/Helpers.lean', 'Model/Self.lean', 'Lemmas/Subdivide.lean', 'Lemmas/Elevate.lean', 'Model/Basic.lean', 'Model/Curve.lean', 'Model/Area.lean'],
     'script': 'props/c07.py',
     'configs': ['speedup'],
     'rule': 'the 36 (name -> pure / compiled) bindings of the six shim modules are enumerated from the AST on every run; each has a typed '
             'generator: dyadic-lattice inputs (exact arithmetic) => outputs, discrete outcomes and exception types must be identical; '
             'binary64 inputs => outputs within 256 u of the data scale (1e-9 for the iterative / conditioned ones); exhaustive '
-            '3-point sequences on the 3x3 lattice + sampled longer ones for the hull; distinct by hash of exact inputs',
+            '3-point sequences on the 3x3 lattice + sampled longer ones for the hull; distinct by hash of exact inputs; shared arcs / shared curved '
+            'triangle edges presented with different degrees (gap 0..4, either order, exact nets) must give the same discrete outcome',
     'partial': ['Props/C07Variants is a complete inventory of the model: every routine is either one definition for both implementations, or '
                 'two variants proved equal (on every input: elevate, contains_nd, convex hull, cut rule and fullNewton since the repair '
                 'ab67aa1, triangle evaluation with the real binomial, triangle locate; on a stated domain: subdivide / specialize on '
